@@ -201,7 +201,7 @@ CLAIMED = {
     'C14': ('D', 'fault_enumeration',
             'exhaustive crash-point enumeration: every byte prefix of every generated file opened by the real readers',
             'For ~70 (quick) / ~300 (thorough) generated files of 11 formats (incl. cloud/rain, land-use and GEOS-Chem '
-            'binary punch files with averaged and instantaneous stamps; hour-24 end stamps) EVERY '
+            'binary punch files with averaged and instantaneous stamps; hour-24 end stamps; half-hourly HHMM stamps from midnight) EVERY '
             'proper byte prefix (58 k / ~300 k cuts; '
             'uamiv and lateral_boundary also in update mode r+) is opened with the memory-mapped reader and fully '
             'read: the outcome must be an exception or only complete steps bit-identical to the full file, same '
